@@ -126,7 +126,7 @@ theorem step_trim_frame (grow : Nat → Nat) {s : St} {top : Nat → Nat} (inv :
   simp only [step, hg]
   split
   · exact ⟨fun _ _ _ _ _ _ => rfl, fun _ _ => rfl⟩
-  · have hshape := (setRP_shape d inv h).2.2.2
+  · have hshape := (setRP_shape d inv h).2.2.2.2
     refine ⟨fun k e e' hk hk' hl' => ?_, fun kv hkv => ?_⟩
     · show render (setRP d s h).1 e.h = render s e.h
       have hlt := old_lt hk
@@ -280,5 +280,73 @@ theorem memo_stable (grow : Nat → Nat) {s : St} {top : Nat → Nat} (inv : Inv
   · simp [step, hfind]
   · simp only [step, hfind]
     exact hfr
+
+/-! ### the trace is the pool -/
+
+theorem kill_length (s : St) (i : Nat) : (s.kill i).pool.length = s.pool.length := by simp [St.kill]
+
+theorem setRP_pool (d : Nat) (s : St) (h : Handle) : (setRP d s h).1.pool = s.pool := by cases h <;> rfl
+
+theorem step_pool_length (grow : Nat → Nat) (s : St) (op : Op) :
+    (step grow s op).1.pool.length = s.pool.length ∨ (step grow s op).1.pool.length = s.pool.length + 1 := by
+  cases op <;> simp only [step, doMemoStore, doAppend]
+  all_goals (repeat' split)
+  all_goals first
+    | (left; rfl)
+    | (right; simp [St.push, allocNode, consume_pool_length, kill_length, setRP_pool]; done)
+    | (left; simp [kill_length]; done)
+
+theorem drop_last {α : Type} : ∀ (l : List α) (n : Nat) (hne : l ≠ []), l.length = n + 1 → l.drop n = [l.getLast hne]
+  | [], _, hne, _ => absurd rfl hne
+  | [x], n, _, h => by
+    have : n = 0 := by simpa using h
+    subst this; rfl
+  | x :: y :: ys, 0, _, h => by simp at h
+  | x :: y :: ys, n + 1, _, h => by
+    have := drop_last (y :: ys) n (by simp) (by simpa using h)
+    simp only [List.drop_succ_cons]
+    rw [this]
+    simp
+
+/-- the trace records exactly the pool, in order -/
+theorem runTrace_complete (grow : Nat → Nat) (ops : List Op) :
+    ∀ {s : St} {top : Nat → Nat} {T : Trace}, Inv s top → T.map (·.1) = s.pool.map (·.h) →
+      (runTrace grow ops (s, T)).2.map (·.1) = (runTrace grow ops (s, T)).1.pool.map (·.h) := by
+  induction ops with
+  | nil => intro s top T _ h; exact h
+  | cons op ops ih =>
+    intro s top T inv hT
+    obtain ⟨⟨top1, inv1⟩, x1⟩ := step_any grow inv op
+    have hs : (traceStep grow (s, T) op).1 = (step grow s op).1 := by
+      unfold traceStep; simp only; split <;> rfl
+    have : runTrace grow (op :: ops) (s, T) = runTrace grow ops ((traceStep grow (s, T) op).1, (traceStep grow (s, T) op).2) := rfl
+    rw [this]
+    apply ih (top := top1) (by rw [hs]; exact inv1)
+    -- handles of old entries are unchanged
+    have hpre : ((step grow s op).1.pool.map (·.h)).take s.pool.length = s.pool.map (·.h) := by
+      apply List.ext_getElem?
+      intro k
+      simp only [List.getElem?_take, List.getElem?_map]
+      by_cases hk : k < s.pool.length
+      · obtain ⟨e', he', hh', _⟩ := x1.pool k s.pool[k] (by simp [hk])
+        simp [hk, he', hh']
+      · simp [hk]
+    unfold traceStep
+    simp only
+    rcases step_pool_length grow s op with hl | hl
+    · rw [if_neg (by omega)]
+      simp only
+      rw [hT, ← hpre, List.take_of_length_le (by simp [hl])]
+    · rw [if_pos (by omega)]
+      simp only [List.map_append, List.map_cons, List.map_nil]
+      rw [hT, ← hpre]
+      have hne : (step grow s op).1.pool ≠ [] := by
+        intro h; rw [h] at hl; simp at hl
+      rw [List.getLast?_eq_some_getLast hne]
+      simp only [Option.map_some, Option.getD_some]
+      conv => rhs; rw [← List.take_append_drop s.pool.length ((step grow s op).1.pool.map (·.h))]
+      congr 1
+      rw [← List.map_drop, drop_last _ _ hne hl]
+      rfl
 
 end PV.Slice
